@@ -72,6 +72,9 @@ RECEIVERS = {
     "isotope": "pt.Fe[58]",
     "ion": "pt.Fe.ion[2]",
     "isotope_ion": "pt.Fe[58].ion[2]",
+    # an isotope that exists (mass table) but has no row of its own in the isotope-level data (neutron, activation):
+    # the first touch through it must not be answered from its element
+    "isotope_norow": "pt.C[14]",
 }
 # an atom for which the canonical order has no table entry for the group
 NODATA = {
@@ -131,6 +134,7 @@ def _build_events():
     add("calc:neutron_sld", "S(pt.neutron_sld('H2O', density=1))", ["neutron"], "calc")
     add("calc:neutron_scattering", "S(pt.neutron_scattering('H2O', density=1))", ["neutron"], "calc")
     add("calc:element_neutron_sld", "S(pt.Ni.neutron.sld())", ["neutron"], "calc")
+    add("calc:neutron_sld_norow_isotope", "S(pt.neutron_sld('C[14]O2', density=1.5))", ["neutron"], "calc")
     add("calc:fasta", "str(pt.formula('aa:A'))", ["neutron"], "calc")
     add("calc:xray_sld", "S(pt.xray_sld('H2O', density=1, energy=8.0))", ["xray"], "calc")
     add("calc:xray_sld_K_alpha", "S(pt.xray_sld('SiO2', density=2.2, wavelength=pt.Cu.K_alpha))",
